@@ -7,6 +7,9 @@ import importlib
 import json
 import multiprocessing as mp
 import os
+import pickle
+import select
+import signal
 import subprocess
 import sys
 import time
@@ -147,8 +150,18 @@ class RunCtx:
         self.keys = []
         self.log = []       # event log for the determinism digest
         self.log_sched = [] # schedule-dependent part (interleaving signature, step counts)
-        self.sample = None
+        self._sample = None
         self.known = []     # known findings hit (sig)
+
+    @property
+    def sample(self):
+        return self._sample
+
+    @sample.setter
+    def sample(self, v):
+        # a snapshot, not the live objects: nothing of a scenario may stay alive after it ended
+        # (a later scenario of the same run must be able to re-use the freed objects' addresses)
+        self._sample = jsonable(v) if v is not None else None
 
     def stat(self, k, n=1):
         self.stats[k] = self.stats.get(k, 0) + n
@@ -220,13 +233,104 @@ def execute(pid, tier, seed=None, recorded=None):
     env.seed_entropy(20261001)
     vio = None
     disc = None
+    limit = float(os.environ.get("VERIF_RUN_LIMIT_S", 0)) or (90.0 if tier == "quick" else 180.0)
+    armed = _arm_run_timer(limit)
     try:
-        mod.run_one(ch, ctx)
+        # a run may consist of several scenarios executed one after the other in the same
+        # process (SUBRUNS): state that wrongly outlives a scenario -- a cache keyed by the
+        # identity of a dropped schema object, a module-level table -- then shows WITHIN the
+        # run and is reproduced by replaying the run, which always executes in a fresh fork
+        for _k in range(getattr(mod, "SUBRUNS", 1)):
+            ch.mark_subrun()
+            mod.run_one(ch, ctx)
     except Violation as v:
         vio = v
     except Discard as d:
         disc = d.reason
+    except RunTimeout:
+        # no simulated run of the unchanged tree comes near the limit (the slowest take a few
+        # seconds): a run that does not finish is reported like a stall, with its replay
+        vio = Violation("liveness", "run-time-limit-exceeded", detail={"limit_s": limit, "choices_drawn": len(ch.record)})
+    finally:
+        if armed:
+            signal.setitimer(signal.ITIMER_REAL, 0)
     return ctx, vio, disc, ch
+
+
+class RunTimeout(BaseException):
+    pass
+
+
+def _on_alarm(signum, frame):
+    raise RunTimeout()
+
+
+def _arm_run_timer(limit):
+    """Wall-clock limit for one run (main thread of the executing process only)."""
+    import threading
+    if threading.current_thread() is not threading.main_thread():
+        return False
+    signal.signal(signal.SIGALRM, _on_alarm)
+    signal.setitimer(signal.ITIMER_REAL, limit)
+    return True
+
+
+class IsolatedFailure(Exception):
+    pass
+
+
+def isolated(func, args=(), timeout=900.0):
+    """Run func(*args) in a fork of this process and return its (pickled) result.  The
+    calling process never executes property code itself, so nothing a run leaves behind in
+    process state (module globals, caches, allocator state) can influence another run except
+    where that is intended (the runs of one batch, which are re-executed together for
+    history-dependent violations)."""
+    r, w = os.pipe()
+    pid = os.fork()
+    if pid == 0:
+        try:
+            os.close(r)
+            try:
+                res = ("ok", func(*args))
+            except BaseException:  # noqa
+                res = ("error", traceback.format_exc())
+            try:
+                data = pickle.dumps(res, protocol=pickle.HIGHEST_PROTOCOL)
+            except Exception:  # noqa
+                data = pickle.dumps(("error", "unpicklable result: " + traceback.format_exc()))
+            i = 0
+            while i < len(data):
+                i += os.write(w, data[i:i + (1 << 16)])
+        finally:
+            os._exit(0)
+    os.close(w)
+    chunks = []
+    end = time.time() + timeout
+    try:
+        while True:
+            rl, _, _ = select.select([r], [], [], max(0.0, end - time.time()))
+            if not rl:
+                try:
+                    os.kill(pid, signal.SIGKILL)
+                except ProcessLookupError:
+                    pass
+                raise IsolatedFailure(f"isolated call exceeded {timeout:.0f}s and was killed")
+            b = os.read(r, 1 << 20)
+            if not b:
+                break
+            chunks.append(b)
+    finally:
+        os.close(r)
+        try:
+            os.waitpid(pid, 0)
+        except ChildProcessError:
+            pass
+    if not chunks:
+        raise IsolatedFailure("isolated call died without a result")
+    res = pickle.loads(b"".join(chunks))
+    if res[0] != "ok":
+        raise IsolatedFailure("isolated call failed:\n" + str(res[1]))
+    return res[1]
 
 
 def _merge(dst, src):
@@ -235,8 +339,20 @@ def _merge(dst, src):
 
 
 def _work(pid, tier, verif_seed, start, count, known_sigs, want_digests, deadline):
-    """Worker: runs [start, start+count).  Returns an aggregate dict."""
-    faulthandler.dump_traceback_later(max(60, int(deadline - time.time()) + 120), exit=True)
+    """Pool worker: every batch runs in its own fork, so a batch starts from the pristine
+    state of the parent (modules imported, fastavro never called)."""
+    try:
+        return isolated(_work_batch, (pid, tier, verif_seed, start, count, known_sigs, want_digests, deadline),
+                        timeout=max(120.0, deadline - time.time() + 240.0))
+    except IsolatedFailure as e:
+        return {"runs": 0, "evals": 0, "steps": 0, "stats": {}, "faults": {}, "probes": {}, "keys": {}, "samples": [],
+                "discarded": {}, "violation": None, "known": {}, "digests": {}, "error": f"batch {start}..{start + count - 1}: {e}",
+                "first": start, "last": start}
+
+
+def _work_batch(pid, tier, verif_seed, start, count, known_sigs, want_digests, deadline):
+    """Runs [start, start+count) in this (forked) process.  Returns an aggregate dict."""
+    faulthandler.dump_traceback_later(max(60, int(deadline - time.time()) + 200), exit=True)
     agg = {"runs": 0, "evals": 0, "steps": 0, "stats": {}, "faults": {}, "probes": {},
            "keys": {}, "samples": [], "discarded": {}, "violation": None, "known": {},
            "digests": {}, "error": None, "first": start, "last": start}
@@ -245,31 +361,34 @@ def _work(pid, tier, verif_seed, start, count, known_sigs, want_digests, deadlin
             if time.time() > deadline:
                 break
             rs = choices_mod.run_seed(verif_seed, pid, i)
-            ctx, vio, disc, ch = execute(pid, tier, seed=rs)
+            # the runs of one batch share this (forked, initially pristine) process; a violation
+            # is afterwards re-executed alone in a fresh fork, and only if it does not show there
+            # is it treated as history-dependent (replay = the batch prefix, see run_check)
+            r = _run_job(pid, tier, rs, i in want_digests, len(agg["samples"]) < 2)
             agg["runs"] += 1
             agg["last"] = i
-            agg["evals"] += ctx.evals
-            agg["steps"] += ctx.steps
-            _merge(agg["stats"], ctx.stats)
-            _merge(agg["faults"], ctx.faults)
-            _merge(agg["probes"], ctx.probes)
-            for kk, w in ctx.keys:
+            agg["evals"] += r["evals"]
+            agg["steps"] += r["steps"]
+            _merge(agg["stats"], r["stats"])
+            _merge(agg["faults"], r["faults"])
+            _merge(agg["probes"], r["probes"])
+            for kk, w in r["keys"]:
                 if w > agg["keys"].get(kk, 0):
                     agg["keys"][kk] = w
-            for s in ctx.known:
-                agg["known"][s] = agg["known"].get(s, 0) + 1
-            if i in want_digests:
-                agg["digests"][i] = run_digests(ctx, ch, vio, disc)
-            if ctx.sample is not None and len(agg["samples"]) < 2:
-                agg["samples"].append(jsonable(ctx.sample))
+            for sg in r["known"]:
+                agg["known"][sg] = agg["known"].get(sg, 0) + 1
+            if r["digest"] is not None:
+                agg["digests"][i] = r["digest"]
+            if r["sample"] is not None and len(agg["samples"]) < 2:
+                agg["samples"].append(r["sample"])
+            disc = r["discard"]
             if disc:
                 agg["discarded"][disc] = agg["discarded"].get(disc, 0) + 1
-            if vio is not None:
-                if vio.sig in known_sigs:
-                    agg["known"][vio.sig] = agg["known"].get(vio.sig, 0) + 1
+            if r["v"] is not None:
+                if r["v"]["sig"] in known_sigs:
+                    agg["known"][r["v"]["sig"]] = agg["known"].get(r["v"]["sig"], 0) + 1
                     continue
-                agg["violation"] = {"run_index": i, "run_seed": rs, "choices": ch.record,
-                                    "v": vio.as_dict()}
+                agg["violation"] = {"run_index": i, "run_seed": rs, "choices": r["record"], "v": r["v"], "batch_start": start}
                 break
     except BaseException:  # harness error: never a pass
         agg["error"] = traceback.format_exc()
@@ -279,40 +398,90 @@ def _work(pid, tier, verif_seed, start, count, known_sigs, want_digests, deadlin
 
 
 # ------------------------------------------------------------------------- minimisation
+def _run_job(pid, tier, run_seed, want_digest, want_sample):
+    """(runs in its own fork) one seeded run; picklable summary."""
+    ctx, vio, disc, ch = execute(pid, tier, seed=run_seed)
+    return {"evals": ctx.evals, "steps": ctx.steps, "stats": ctx.stats, "faults": ctx.faults, "probes": ctx.probes,
+            "keys": ctx.keys, "known": ctx.known, "discard": disc,
+            "digest": run_digests(ctx, ch, vio, disc) if want_digest else None,
+            "sample": ctx.sample if want_sample else None,
+            "v": vio.as_dict() if vio is not None else None,
+            "record": list(ch.record) if vio is not None else None}
+
+
 def _execute_job(pid, tier, recorded):
     """(runs in a fresh fork) execute one recorded choice list; picklable summary."""
     ctx, vio, disc, ch = execute(pid, tier, recorded=recorded)
-    return (vio.as_dict() if vio is not None else None, list(vio.cls()) if vio is not None else None, list(ch.record))
+    return {"v": vio.as_dict() if vio is not None else None, "cls": list(vio.cls()) if vio is not None else None,
+            "record": list(ch.record), "marks": list(ch.marks), "count_pos": ch.count_pos, "discard": disc}
+
+
+def _sequence_job(pid, tier, verif_seed, start, end, known_sigs=()):
+    """(runs in a fresh fork) execute the run indices start..end one after the other in ONE
+    process, through the very function the check uses for a batch (same bookkeeping between
+    the runs, hence the same allocation pattern); report the violation it stops at."""
+    agg = _work_batch(pid, tier, verif_seed, start, end - start + 1, frozenset(known_sigs), frozenset(range(0, 8)),
+                      time.time() + 3600.0)
+    if agg.get("error"):
+        raise RuntimeError(agg["error"])
+    v = agg["violation"]
+    if v is None:
+        return None
+    return {"v": v["v"], "cls": [v["v"]["clause"], v["v"]["kind"]], "run_index": v["run_index"]}
+
+
+def shrink_sequence(pid, tier, verif_seed, start, end, cls, deadline, known_sigs):
+    """History-dependent violation at run index `end` of the batch that began at `start`:
+    find a late start' such that the contiguous range start'..end still ends in the same
+    violation (each candidate: the whole range in one fresh fork)."""
+    def fails(s0):
+        try:
+            out = isolated(_sequence_job, (pid, tier, verif_seed, s0, end, sorted(known_sigs)), timeout=900.0)
+        except IsolatedFailure:
+            return False
+        return bool(out and out["run_index"] == end and tuple(out["cls"]) == tuple(cls))
+
+    if not fails(start):
+        return start, False
+    best = start
+    step = 1
+    while end - step > start and time.time() < deadline:   # shortest suffix first: end-1, end-2, end-4, ...
+        if fails(end - step):
+            best = end - step
+            break
+        step *= 2
+    return best, True
+
+
+def _probes_job(pid):
+    mod = prop_module(pid)
+    return [tuple(x) for x in mod.finding_probes()] if hasattr(mod, "finding_probes") else []
+
+
+def _refine_job(pid, minimised):
+    mod = prop_module(pid)
+    return jsonable(mod.refine(minimised))
 
 
 def execute_isolated(pid, tier, recorded):
-    """execute() in a fresh fork of the pristine server -- for properties about state that
-    leaks across calls, where candidates evaluated one after the other in this process
-    would contaminate each other."""
-    import fresh
-    vd, cls, rec = fresh.server().call("runner", "_execute_job", (pid, tier, list(recorded)))
-    return vd, (tuple(cls) if cls else None), rec
+    """execute() in a fork of this (pristine) process."""
+    r = isolated(_execute_job, (pid, tier, list(recorded)))
+    return r["v"], (tuple(r["cls"]) if r["cls"] else None), r["record"]
 
 
 def shrink(pid, tier, rec, cls, deadline, known_sigs):
     """Hypothesis-style shrinking of the recorded choice list while the same violation
     class persists."""
-    isolated = getattr(prop_module(pid), "SHRINK_IN_FRESH_FORK", False)
-
     def fails(cand):
+        # every candidate runs in its own fork of this pristine process
         try:
-            if isolated:
-                vd, vcls, rec2 = execute_isolated(pid, tier, cand)
-                if vd is not None and vcls == tuple(cls) and vd["sig"] not in known_sigs:
-                    return rec2
-                return None
-            ctx, vio, disc, ch = execute(pid, tier, recorded=cand)
-        except BaseException:
+            r = isolated(_execute_job, (pid, tier, list(cand)), timeout=400.0)
+        except IsolatedFailure:
             return None
-        if vio is not None and vio.cls() == cls and vio.sig not in known_sigs:
-            last["marks"] = list(ch.marks)
-            last["count_pos"] = ch.count_pos
-            return ch.record
+        if r["v"] is not None and tuple(r["cls"]) == tuple(cls) and r["v"]["sig"] not in known_sigs:
+            last["marks"] = list(r["marks"])
+            last["count_pos"] = r["count_pos"]
+            return r["record"]
         return None
 
     last = {"marks": [], "count_pos": None}
@@ -374,17 +543,23 @@ def shrink(pid, tier, rec, cls, deadline, known_sigs):
     return best, True
 
 
-def write_replay(pid, tier, verif_seed, viol, minimised, min_v):
+def write_replay(pid, tier, verif_seed, viol, minimised, min_v, sequence=None):
     os.makedirs(REPLAY_DIR, exist_ok=True)
     body = {
         "property": pid, "tier": tier, "verif_seed": verif_seed,
+        "mode": "sequence" if sequence else "single",
         "run_index": viol["run_index"], "run_seed": viol["run_seed"],
         "original_choices_len": len(viol["choices"]),
         "choices": minimised,
         "clause": min_v["clause"], "kind": min_v["kind"], "sig": min_v["sig"],
         "violation": min_v,
     }
-    dg = hashlib.sha256(json.dumps(body["choices"]).encode()).hexdigest()[:10]
+    if sequence:
+        # the violation shows only after earlier runs in the same process (state that outlives a
+        # run: a cache keyed by object identity, a module-level table ...): the replay is the
+        # range [first, last] of run indices, executed one after the other in one fresh process
+        body["sequence"] = list(sequence)
+    dg = hashlib.sha256(json.dumps([body["choices"], body.get("sequence")]).encode()).hexdigest()[:10]
     path = os.path.join(REPLAY_DIR, f"{pid}-{dg}.json")
     with open(path, "w") as f:
         json.dump(body, f, indent=1, default=str)
@@ -398,8 +573,8 @@ def replay(pid, path):
     known_sigs = {s for (p, s) in known if p == pid}
     if body.get("probe"):
         # a fixed (finding / regression) probe: re-run the probes and look for the same one
-        mod = prop_module(pid)
-        for sig, reproduces, text in mod.finding_probes():
+        prop_module(pid)
+        for sig, reproduces, text in isolated(_probes_job, (pid,)):
             if sig == body["probe"]:
                 print(json.dumps({"probe": sig, "reproduces": reproduces, "text": text}))
                 if reproduces and sig in known_sigs:
@@ -410,16 +585,22 @@ def replay(pid, path):
                     return 1
         print("replay: probe no longer reproduces")
         return 0
-    ctx, vio, disc, ch = execute(pid, tier, recorded=body["choices"])
-    if vio is None:
-        print(f"replay: no violation reproduced (discard={disc})")
+    prop_module(pid)
+    if body.get("mode") == "sequence":
+        out = isolated(_sequence_job, (pid, tier, body["verif_seed"], body["sequence"][0], body["sequence"][1], sorted(known_sigs)))
+        vd = out["v"] if out and out["run_index"] == body["sequence"][1] else None
+        print(f"replay: run indices {body['sequence'][0]}..{body['sequence'][1]} in one fresh process")
+    else:
+        vd = isolated(_execute_job, (pid, tier, body["choices"]))["v"]
+    if vd is None:
+        print("replay: no violation reproduced")
         return 0
-    same = (vio.clause, vio.kind) == (body["clause"], body["kind"])
-    print(json.dumps(vio.as_dict(), indent=1, default=str)[:6000])
+    same = (vd["clause"], vd["kind"]) == (body["clause"], body["kind"])
+    print(json.dumps(vd, indent=1, default=str)[:6000])
     if not same:
         print(f"replay: a different violation class than recorded ({body['clause']}:{body['kind']})")
-    if vio.sig in known_sigs:
-        print(f"KNOWN-FINDING: property={pid} {vio.sig}")
+    if vd["sig"] in known_sigs:
+        print(f"KNOWN-FINDING: property={pid} {vd['sig']}")
         return 0
     print(f"VIOLATION property={pid} replay={path}")
     return 1
@@ -483,7 +664,7 @@ def run_check(pid, tier, verif_seed, budget_s=None, max_runs=None, workers=None)
     known_hits = {}
     probe_reports = []
     if hasattr(mod, "finding_probes"):
-        for sig, reproduces, text in mod.finding_probes():
+        for sig, reproduces, text in isolated(_probes_job, (pid,)):
             if (pid, sig) in known:
                 if reproduces:
                     known_hits[sig] = known_hits.get(sig, 0) + 1
@@ -564,21 +745,43 @@ def run_check(pid, tier, verif_seed, budget_s=None, max_runs=None, workers=None)
     if violation is not None:
         cls = (violation["v"]["clause"], violation["v"]["kind"])
         sdl = time.time() + min(120.0, max(10.0, budget_s / 4))
-        minimised, ok = shrink(pid, tier, violation["choices"], cls, sdl, known_sigs)
-        if getattr(mod, "SHRINK_IN_FRESH_FORK", False):
-            vd, _c, _r = execute_isolated(pid, tier, minimised)
-        else:
-            ctx, vio, disc, ch = execute(pid, tier, recorded=minimised)
-            vd = vio.as_dict() if vio is not None else None
-        min_v = vd if vd is not None else violation["v"]
-        if vd is None:
-            minimised = violation["choices"]
-        if hasattr(mod, "refine"):
+        sequence = None
+        # 1. does the run show the violation on its own, in a fresh fork?
+        try:
+            vd0, cls0, _r0 = execute_isolated(pid, tier, violation["choices"])
+        except IsolatedFailure:
+            vd0, cls0 = None, None
+        if vd0 is not None and cls0 == tuple(cls):
+            minimised, ok = shrink(pid, tier, violation["choices"], cls, sdl, known_sigs)
             try:
-                min_v["refined"] = jsonable(mod.refine(minimised))
-            except Exception:  # noqa
-                min_v["refined"] = {"error": traceback.format_exc()[-800:]}
-        replay_path = write_replay(pid, tier, verif_seed, violation, minimised, min_v)
+                vd, _c, _r = execute_isolated(pid, tier, minimised)
+            except IsolatedFailure:
+                vd = None
+            min_v = vd if vd is not None else violation["v"]
+            if vd is None:
+                minimised = violation["choices"]
+            if hasattr(mod, "refine"):
+                try:
+                    min_v["refined"] = isolated(_refine_job, (pid, minimised), timeout=600.0)
+                except Exception:  # noqa
+                    min_v["refined"] = {"error": traceback.format_exc()[-800:]}
+        else:
+            # 2. history-dependent: it needs the earlier runs of its batch (state that outlives a run,
+            #    e.g. a cache keyed by the identity of a dropped object).  Replay = the contiguous range
+            #    of run indices first..last, executed in one fresh process exactly as the check ran them.
+            minimised = violation["choices"]
+            min_v = dict(violation["v"])
+            s0, seq_ok = shrink_sequence(pid, tier, verif_seed, violation.get("batch_start", violation["run_index"]),
+                                         violation["run_index"], cls, sdl, known_sigs)
+            sequence = [s0, violation["run_index"]]
+            min_v["history_dependent"] = {
+                "explanation": "executed alone in a fresh process the run does not violate the property; it does after the "
+                               "earlier runs of its batch in the same process (state that outlives a run)",
+                "range_reproduces_in_fresh_process": seq_ok,
+                "note": None if seq_ok else "NOT reproducible from the run indices either: the outcome depends on which freed "
+                        "object's address a new object receives (allocator state), which differs between processes",
+                "first_run_index": s0, "last_run_index": violation["run_index"]}
+        replay_path = write_replay(pid, tier, verif_seed, violation, minimised, min_v, sequence)
         print(json.dumps(min_v, default=str)[:3000])
         print(f"VIOLATION property={pid} replay={replay_path}")
         rc = 1
